@@ -732,7 +732,9 @@ def c09(run, scratch):
     t = run.tier == "thorough"
     small = [f for f in SMALL_CORPUS if os.path.getsize(f) < 3000] if not t else SMALL_CORPUS
     ev = cache_trace(run, scratch, "Trace_Cache_written", "written", 400 if t else 150, small, _c09_corrupt,
-                     lambda e: e["t"] == "written" and len(e["bytes"]) > 60 and e["test_ok"], workers=14 if t else 10)
+                     lambda e: e["t"] == "written" and len(e["bytes"]) > 60 and e["test_ok"], workers=14 if t else 10,
+                     extra=["--layout-at-scale", 200000 if t else 70000])
+    ev = [e for e in ev if e["t"] == "written"]
     for e in ev[-3:-1]:
         run.sample({"mapping": b2s(e["src"])[:300], "cache_len": len(e["bytes"]), "self_test": e["test_ok"]})
     # the model side: the decoder accepts exactly what the layout arithmetic says (MC_CacheParse)
